@@ -16,10 +16,21 @@ import (
 	"golang.org/x/tools/go/packages"
 )
 
+type BoundedSpec struct {
+	Name     string            `json:"name"`
+	What     string            `json:"what"`
+	TestFile string            `json:"test_file"` // relative to /verif
+	PkgDir   string            `json:"pkg_dir"`   // relative to the repository
+	Run      string            `json:"run"`
+	Quick    map[string]string `json:"quick_env"`
+	Thorough map[string]string `json:"thorough_env"`
+	TimeoutS int               `json:"timeout_s"`
+}
+
 type PropConfig struct {
 	Packages []string `json:"packages"`
 	Sweeps   []string `json:"sweeps,omitempty"`
-	Bounded  []string `json:"bounded,omitempty"`
+	Bounded  []BoundedSpec `json:"bounded,omitempty"`
 	Note     string   `json:"note,omitempty"`
 	NotDecided []string `json:"not_decided,omitempty"`
 	PaperSteps []string `json:"paper_steps,omitempty"`
@@ -336,6 +347,25 @@ func cmdCheck(args []string) int {
 	if len(rep.Unproved) > 0 {
 		for _, o := range rep.Unproved {
 			fmt.Printf("unproved (not in baseline, not counted): %s [%s]\n", o.Name, o.Status)
+		}
+	}
+	// bounded stand-ins (never counted as proved)
+	if *only == "" {
+		for _, b := range pc.Bounded {
+			ok, info := runBounded(rep, b)
+			rep.Bounded = append(rep.Bounded, info)
+			if !ok {
+				path := filepath.Join(*verif, "replays", *prop, "bounded-"+b.Name+".json")
+				os.MkdirAll(filepath.Dir(path), 0o755)
+				data, _ := json.MarshalIndent(info, "", " ")
+				os.WriteFile(path, data, 0o644)
+				tail := ""
+				if info["failure"] == nil {
+					tail = " no-failing-input-found"
+				}
+				fmt.Printf("VIOLATION property=%s replay=%s obligation=bounded.%s status=counterexample%s\n", *prop, path, b.Name, tail)
+				exit = 1
+			}
 		}
 	}
 	if *updateBaseline {
